@@ -236,7 +236,7 @@ func (sm *StrategyManager) lowestLatencyNextBackend(log logr.Logger, backends []
 			return backend, log, true
 		}
 
-		if lowestLatency == 0 || latencyItem.Value() < lowestLatency {
+		if lowestBackend == "" || latencyItem.Value() < lowestLatency {
 			lowestBackend = backend
 			lowestLatency = latencyItem.Value()
 		}
